@@ -40,6 +40,8 @@ VARIANTS = [("j1", ["-j1"]), ("thread-j2", ["-j2", "--executor=thread"]), ("proc
 
 
 def gen(seed):
+    if seed < 0:
+        return projgen.gen_special(-seed)
     p = projgen.gen_project(seed)
     # force information so that unmatched suppressions are reported; keep the other options
     opts = [o for o in p["opts"] if not o.startswith("--enable=")]
@@ -127,6 +129,7 @@ def main(tier, seed, replay=None):
     else:
         n = 9 if tier == "quick" else 200
         projs = [gen(seed * 1000 + 5 * i) for i in range(n)]        # multiples of 5: every project has a never-matching entry
+        projs += [gen(-1), gen(-2)]                                 # translation units that disagree about a header suppression
         variants = VARIANTS[:3] if tier == "quick" else VARIANTS
         seeds = [seed] if tier == "quick" else [seed, seed + 1]
     runs = run_all(projs, variants, seeds)
